@@ -560,8 +560,44 @@ var soupPool = []string{"%", "%G", "%_", "%2G", "%5b", "%Zz", "(/", "<http://x/"
 
 var runLengths = []int{15, 16, 17, 31, 32, 33, 63, 64, 65, 79, 80, 81, 99, 100, 101, 127, 128, 129, 255, 256, 257, 999, 1000, 1001}
 
+// nestPairs: inline constructs that nest; N levels of one of them (or of two
+// alternating) around a small core.  Work that doubles per nesting level is
+// invisible at the depth of 2-3 that ordinary documents have.
+var nestPairs = [][2]string{{"![", "](u)"}, {"![", "](u \"t\")"}, {"[", "](u)"}, {"![", "][r]"}, {"![", "]"}, {"[", "]"}, {"*", "*"}, {"**", "**"}, {"_", "_"}, {"<b>", "</b>"}, {"![*", "*](u)"}, {"`", "`"}, {"(", ")"}, {"[![", "](u)](v)"}}
+
+func nestedInline(r *Rng) []byte {
+	var sb strings.Builder
+	n := []int{5, 12, 20, 28, 33, 40, 60}[r.Intn(7)]
+	a := nestPairs[r.Intn(len(nestPairs))]
+	b := a
+	if r.Chance(0.3) {
+		b = nestPairs[r.Intn(len(nestPairs))]
+	}
+	sb.WriteString(r.Pick([]string{"", "", "# ", "> ", "- "}))
+	for i := 0; i < n; i++ {
+		if i%2 == 0 {
+			sb.WriteString(a[0])
+		} else {
+			sb.WriteString(b[0])
+		}
+	}
+	sb.WriteString(r.Pick([]string{"x", "", " ", "&amp;", "x\ny"}))
+	for i := n - 1; i >= 0; i-- {
+		if i%2 == 0 {
+			sb.WriteString(a[1])
+		} else {
+			sb.WriteString(b[1])
+		}
+	}
+	sb.WriteString(r.Pick([]string{"\n", "", "\n\n[r]: /u\n"}))
+	return []byte(sb.String())
+}
+
 func soup(r *Rng) []byte {
 	var sb strings.Builder
+	if r.Chance(0.12) {
+		return nestedInline(r)
+	}
 	if r.Chance(0.2) {
 		tok := r.Pick([]string{"`", "*", "_", "~", "[", "]", "(", ")", "<", ">", "#", "=", "-", "+", "\\", "&", "!", " ", "\t", "a", "1", ">", "> ", "- ", "\u00e9"})
 		n := runLengths[r.Intn(len(runLengths))]
